@@ -143,19 +143,26 @@ async def run_script(job):
             k = c["c"]
             if k == "serve":
                 transport = c["tr"]
-                if transport == "unix":
-                    server = UnixControlServer(pool, path)
-                else:
-                    port = free_port()
-                    # (the port may be given as int or str)
-                    server = TCPControlServer(pool, "127.0.0.1", str(port) if len(job["script"]) % 2 else port)
                 t0 = time.time()
+                try:
+                    if transport == "unix":
+                        server = UnixControlServer(pool, path)
+                    else:
+                        port = free_port()
+                        # (the port may be given as int or str)
+                        server = TCPControlServer(pool, "127.0.0.1", str(port) if len(job["script"]) % 2 else port)
+                except Exception as e:      # noqa: BLE001  (a server that cannot even be constructed: an observation, not a crash)
+                    ev("served", tr=transport, ok=False, prompt=True, serving=False, sock=False, err=type(e).__name__)
+                    break
                 try:
                     task = await asyncio.wait_for(server.serve_forever(), BOUND)
                     ev("served", tr=transport, ok=isinstance(task, asyncio.Task), prompt=True, serving=bool(server.is_serving()),
                        sock=os.path.exists(path))
                 except asyncio.TimeoutError:
                     ev("served", tr=transport, ok=False, prompt=False, serving=False, sock=os.path.exists(path))
+                except Exception as e:      # noqa: BLE001
+                    ev("served", tr=transport, ok=False, prompt=True, serving=False, sock=os.path.exists(path), err=type(e).__name__)
+                    break
             elif k == "connect":
                 cl = clients[c["s"]] = Client()
                 if c.get("cli"):
